@@ -30,7 +30,38 @@ def unwrap(unit):
     return unit
 
 
+_rs_cache = {}
+
+
 def _scale(unit):
+    """Exact rational SI scale of a unit, computed structurally through the unit definitions so that
+    prefixes are exact (kpc == 1000 pc) and conversions compose to the identity."""
+    key = id(unit)
+    hit = _rs_cache.get(key)
+    if hit is not None and hit[0] is unit:
+        return hit[1]
+    r = _rscale(unit)
+    _rs_cache[key] = (unit, r)
+    return r
+
+
+def _rscale(unit):
+    try:
+        if isinstance(unit, _u.IrreducibleUnit):
+            return Fraction(1)
+        if isinstance(unit, _u.CompositeUnit):
+            r = Fraction(float(unit.scale))
+            for b, p in zip(unit.bases, unit.powers):
+                pf = Fraction(p).limit_denominator(1000)
+                if pf.denominator != 1:
+                    raise ValueError
+                r *= _rscale(b) ** int(pf)
+            return r
+        rep = getattr(unit, 'represents', None)
+        if rep is not None and rep is not unit:
+            return _rscale(rep)
+    except (ValueError, TypeError, AttributeError, RecursionError):
+        pass
     return Fraction(float(unit.decompose().scale))
 
 
